@@ -17,13 +17,13 @@ CHECKS = {
  "C09": hc("3/C09", "All 9-scan histories (<= 2 / 3 deviations) with cordon/uncordon of any node at any point of its life; no write reaches a node cordoned in the view and every decision equals the reference computed without cordoned capacity (odd-sized cordoned nodes make counting them visible)."),
  "C10": hc("3/C10", "All 9-scan histories (<= 2 / 3 deviations) with the annotation set/emptied/removed at any slot; safety predicate on every removal plus a metamorphic twin execution without annotations: identical taint/untaint/cloud actions, removals differing exactly by the protected nodes."),
  "C11": hc("3/C11", "All histories (<= 2 / 3 deviations) driving a dry group through every decision branch with either switch, with tagging, auto-discovery and from zero nodes: empty write journal from provider construction on; A dry / B live compared with a twin in which A is live."),
- "C12": hc("3/C12", "All 6-scan histories (<= 2 / 3 deviations or faults confined to group a) over 2 and 3 groups in every processing order including the default group: write attribution, and every other group's journal equal to the unperturbed execution; only the not-in-group condition may abort the loop."),
+ "C12": hc("3/C12", "All 6-scan histories (<= 2 / 3 deviations or faults confined to group a) over 2 and 3 groups in every processing order including the default group: write attribution, and every other group's journal equal to the unperturbed execution; only the not-in-group condition may abort the loop, every group is processed in every error-free scan, every group's decisions equal the reference computed from its own pods and nodes, and cmd/main.go's per-group provider configuration (through the start-up probe) depends on that group's options only.", engine="G+H", technique=H+"; plus "+G),
  "C05": hc("3/C05", "Bounded-exhaustive sweep of the real percent and delta arithmetic over node counts x node sizes x thresholds 1..100,120,150,200 x requests exactly on and +/-1 unit around every point where the minimal node count changes (CPU-, memory-bound, both; plus clusters of 100..1000 big nodes), with an exact integer oracle; end-to-end: single scans of mixed groups, scale-from-zero mini-histories (node size changing before the group drains), and mixed groups explored with every failing untaint write and with the max-age trigger coinciding with high utilisation.", engine="G+H", technique=G+"; plus "+H),
  "C08": hc("3/C08", "Every creation-time assignment x list order x taint count for up to 4 (5) nodes, each explored with a failure at every get/update position of the taint loop (deviation-bounded DFS): no untainted, non-failed node is strictly older than a tainted one."),
- "C13": hc("3/C13", "Every pod shape of a 1922-shape universe, pairs/triples over stated sub-universes, every node multiset, in every permutation, through the real calculators against an independent exact parser; end-to-end gauge read-back over every order of a mixed node list.", engine="G", level="exploration", technique=G),
- "C14": hc("3/C14", "Every pod shape of a ~240k-shape universe (selectors x affinity structures x owners x static annotation) and 7 node label maps through the real filter constructors and filtered listers, compared with the predicate of the statement.", engine="G", level="exploration", technique=G),
+ "C13": hc("3/C13", "Every pod shape of a 1922-shape universe, pairs/triples over stated sub-universes, every node multiset, in every permutation, through the real calculators against an independent exact parser; end-to-end gauge read-back over every order of a mixed node list (pods bound anywhere, terminating, dry groups), and decisions one unit off / exactly on every threshold.", engine="G", level="exploration", technique=G),
+ "C14": hc("3/C14", "Every pod shape of a ~240k-shape universe (selectors x affinity structures x owners x static annotation) and 7 node label maps through the real filter constructors and filtered listers, compared with the predicate of the statement; end to end through whole scans of two groups (pods bound anywhere, matching two groups).", engine="G", level="exploration", technique=G),
  "C16": hc("3/C16", "Every configuration with at most 2 (3) of nine exhaustively swept option groups off a valid baseline, rendered as JSON, block YAML and flow YAML, decoded and validated by the real code: accept implies every invariant; decoders agree; every documented key is honoured.", engine="G", level="exploration", technique=G),
- "C17": hc("3/C17", "Every provider-level operation sequence Refresh;[DeleteNodes];IncreaseSize over (desired, max, d) and the fleet-size/lifecycle/override/subnet/split/page-size grid on the real NodeGroup against a stateful simulated AWS that records arguments.", engine="G", level="exploration", technique=G),
+ "C17": hc("3/C17", "Every provider-level operation sequence Refresh;[DeleteNodes];IncreaseSize over (desired, max, d) and the fleet-size/lifecycle/override/subnet/split/page-size grid on the real NodeGroup against a stateful simulated AWS that records arguments; plus controller histories (several scale-ups, the provider rebuilt in between) in which every request must be current + d.", engine="G+H", level="exploration", technique=G+"; plus "+H),
  "C18": hc("3/C18", "Every single failure point of the fleet path (never ready, ready on poll k, k-th attach fails, j-th terminate fails, status poll fails) for fleet sizes crossing the 20 and 1000 limits, on the real provider: set algebra over recorded ids; plus controller histories for the no-lock-after-failure clause.", engine="G+H", level="fault_enumeration", technique="exhaustive fault-point enumeration on the real provider; plus "+H),
  "C19": hc("3/C19", "Every (min, desired, node sequence, failing terminate position) case on the real DeleteNodes; histories with every terminate/delete call failing, non-member nodes eligible for removal in two-group worlds, and a tight cloud minimum: exact targets, decrement, minimum, not-in-group stop, cloud before Kubernetes.", engine="G+H", technique=G+"; plus "+H),
  "C20": hc("3/C20", "All histories over worlds of odd objects with a failure injected at every call of every scan, up to 3 (4) faults/deviations: no panic, no hang in virtual time, only the not-in-group condition stops the controller, the scan after a fault is normal.", level="fault_enumeration"),
